@@ -261,6 +261,8 @@ def run(ctx):
     C07.P = P
     try:
         C07.slice_box_rules(ctx)
+        # ... and which boxes are handed to slice_box (selection margin, task level coherence)
+        C07.geometry_rules(ctx)
     finally:
         C07.P = old
     bylevel_rules(ctx)
